@@ -1,0 +1,13 @@
+//go:build verif && linux
+
+package fuse
+
+import "bazil.org/fuse/fs"
+
+// VerifRoot returns the root node of the filesystem that Serve would mount,
+// so that the verification harness can call the node methods without
+// mounting.  This file only exists under the "verif" build tag.
+func VerifRoot() fs.Node {
+	n, _ := filesystem(0).Root()
+	return n
+}
